@@ -64,7 +64,9 @@ type vCookie = [protocol.ReturnRoutabilityCheckCookieLength]byte
 func vAddr(name string) net.Addr {
 	n, _ := strconv.Atoi(name[1:])
 
-	return &net.UDPAddr{IP: net.IPv4(192, 0, 2, byte(n)), Port: 4000 + n}
+	// pairs of addresses share a host and differ in the port only: a path is an (address, port) pair, a response from
+	// another port of the challenged host answers nothing
+	return &net.UDPAddr{IP: net.IPv4(192, 0, 2, byte(n/2)), Port: 4000 + n}
 }
 
 const (
